@@ -78,8 +78,8 @@ fn class_of(sc: &Sc, v: &V, len: usize) -> String {
 
 pub fn tier_depth(tier: Tier) -> usize {
     match tier {
-        Tier::Quick => 3,
-        Tier::Thorough => 4,
+        Tier::Quick => 4,
+        Tier::Thorough => 5,
     }
 }
 
@@ -219,8 +219,8 @@ pub fn run_c02(tier: Tier, filter: Filter, depth_override: Option<usize>) -> i32
     let depth = depth_override.unwrap_or(tier_depth(tier));
     let corpus = corpus::build(depth, false);
     let cap = match tier {
-        Tier::Quick => 4000,
-        Tier::Thorough => 50000,
+        Tier::Quick => 50000,
+        Tier::Thorough => 400000,
     };
     let st = corpus
         .par_iter()
